@@ -16,5 +16,6 @@ Thorough == Quick
                     x \in SelectW({"S1"}, {{}, {"A2"}}, {}) \cup Recur(BOOLEAN, {}, <<"ab">>)}
             \cup {[x EXCEPT !.fp = [point |-> pt, key |-> f]] : x \in FsWorlds(Bg5, {{}, FilesOf(Bg5)}), pt \in {"stat", "write"}, f \in FilesOf(Bg5)}
 
-MCThorough == {x \in Thorough : WellFormed(x)}
+ThoroughEnv == EnvParams({"title", "mixed"})
+MCThorough == {x \in ThoroughEnv : WellFormed(x)} \cup {x \in Thorough : WellFormed(x)}
 =============================================================================
